@@ -59,10 +59,13 @@ model definitions:
   (`oracle_report` lines);
 * `seq call / call / …` — several calls executed one after the other on the same thread (hidden-state streams: a delete request
   followed by a different request of the same length / sum / xor / polynomial hash / FNV fingerprint, a refused call followed by a
-  valid one, A–B–A); the model is a function, so every call is answered on its own. -/
+  valid one, A–B–A); the model is a function, so every call is answered on its own;
+* `g call…` (part 3) — giant requests (2^17 … 2.2·10^6 elements; the array is named `iota:<shape>` / `zpad:<n>,<l>,<r>` and built
+  by the harness, never written out): answered `ok native` as well and judged, in place, by the SAME native reference. -/
 def handleOne (op : String) (args : List String) : Option String :=
   match op, args with
   | "n", _ :: _ => some "ok native"
+  | "g", _ :: _ => some "ok native"
   | "oracle_report", _ => some "ok report"
   | _, _ => handle1 op args
 
